@@ -289,6 +289,7 @@ func (x *Exec) unop(fr *Frame, st *State, t *ssa.UnOp) string {
 		if (x.overflowOn && srt == "Int") || srt == "Slice" {
 			x.wf(st, t.Type(), v, "load")
 		}
+		x.notFuture(st, t.Type(), v, 0)
 		return v
 	case token.NOT:
 		return not(x.val(fr, st, t.X))
@@ -576,6 +577,10 @@ func (x *Exec) typeAssert(fr *Frame, st *State, t *ssa.TypeAssert) {
 		res = x.unboxIface(t.AssertedType, v)
 	}
 	ok = x.vc.define("taok", "Bool", ok)
+	if _, isStruct := t.AssertedType.Underlying().(*types.Struct); isStruct {
+		res = x.vc.define("unboxed", x.vc.sortOf(t.AssertedType), res)
+		x.notFuture(st, t.AssertedType, res, 0)
+	}
 	if t.CommaOk {
 		zero := x.vc.zero(t.AssertedType)
 		fr.tuples[t] = []string{ite(ok, res, zero), ok}
